@@ -52,8 +52,8 @@ func (m *C14Monitor) refresh(c *Chain, ctx sdk.Context) {
 	}
 }
 
-func (m *C14Monitor) BeforeBlock(c *Chain, ctx sdk.Context)               { m.refresh(c, ctx) }
-func (m *C14Monitor) BeforeTx(c *Chain, ctx sdk.Context, tx sdk.Tx)       { m.refresh(c, ctx) }
+func (m *C14Monitor) BeforeBlock(c *Chain, ctx sdk.Context)         { m.refresh(c, ctx) }
+func (m *C14Monitor) BeforeTx(c *Chain, ctx sdk.Context, tx sdk.Tx) { m.refresh(c, ctx) }
 
 func get(mp map[string]math.Int, k string) math.Int {
 	if v, ok := mp[k]; ok {
